@@ -241,10 +241,95 @@ def unknown_option(i: int, val: int, factory: int) -> bool:
     return raised == bool(value)
 
 
+# ---- overridden grammar actions agree with the base actions on the base alternatives --------------------------------------
+# The Datalog simulation shows that a text accepted by the smaller dialect is reduced by the SAME productions under the
+# larger one. "Identical tree" then needs each relaxed p_* function to compute, for an alternative the base rule also has,
+# the value the base function computes. Children are picked by symbolic index from a pool of everything a sub-tree can be
+# (falsy values included: 0, '', [], None).
+
+CHILD_POOL = [None, 0, '', 'name', 7, ('name', 7), [], ['a', 'b'], ('objectIdentifier', [0]), ('objectIdentifier', ['name']),
+              ('objectIdentifier', [('name', 7)]), ('tag', 'x', [('a', 1)]), [('a', 1), ('b', 2)]]
+
+
+# what a non-terminal with a fixed result shape can be (children outside that shape cannot reach the action)
+_OID = lambda first: ('objectIdentifier', [first, 5])
+SYMBOL_POOL = {'ObjectName': [_OID(0), _OID(7), _OID('name'), _OID(('name', 7)), _OID(('name', 0)), ('objectIdentifier', [0]), ('objectIdentifier', ['name'])]}
+
+
+def _alternatives(fn):
+    """right-hand sides (lists of symbols) of a PLY rule docstring"""
+    doc = fn.__doc__
+    head, rest = doc.split(':', 1)
+    return head.strip(), [alt.split() for alt in rest.replace('\n', ' ').split('|')]
+
+
+def _overrides():
+    from pysmi.parser import smi as _smi
+    out = []
+    for opt in sorted(_smi.relaxedGrammar):
+        for fn in _smi.relaxedGrammar[opt]:
+            base = getattr(_smi.SmiV2Parser, fn.__name__, None)
+            if base is None:
+                continue                        # a rule the base grammar does not have (new non-terminal)
+            bh, balts = _alternatives(base)
+            oh, oalts = _alternatives(fn)
+            for alt in balts:
+                if alt in oalts and alt != ['empty']:
+                    out.append((opt, fn.__name__, alt))
+    return out
+
+
+OVERRIDES = _overrides()
+
+
+def override_action(oi: int, c1: int, c2: int, c3: int, c4: int) -> bool:
+    """
+    requires: 0 <= oi < len(OVERRIDES)
+    requires: 0 <= c1 < len(CHILD_POOL) and 0 <= c2 < len(CHILD_POOL) and 0 <= c3 < len(CHILD_POOL) and 0 <= c4 < len(CHILD_POOL)
+    """
+    from pysmi.parser import smi as _smi
+    opt, name, alt = pick(OVERRIDES, oi)
+    base = getattr(_smi.SmiV2Parser, name)
+    over = None
+    for fn in _smi.relaxedGrammar[opt]:
+        if fn.__name__ == name:
+            over = fn
+    picks = [c1, c2, c3, c4]
+    kids = []
+    k = 0
+    for sym in alt:
+        if sym.startswith("'") or sym.isupper() or sym.replace('_', '').isupper():
+            kids.append(sym.strip("'"))                          # a token: its text
+        else:
+            pool = SYMBOL_POOL.get(sym, CHILD_POOL)
+            kids.append(pick(pool, picks[k % 4] % len(pool)))
+            k += 1
+    if len(alt) > 9:
+        return True
+    pa = [None] + list(kids)
+    pb = [None] + list(kids)
+    ea = eb = None
+    try:
+        base(None, pa)
+    except Exception as e:
+        ea = type(e).__name__
+    try:
+        over(None, pb)
+    except Exception as e:
+        eb = type(e).__name__
+    if ea or eb:
+        return ea == eb                                         # a child the base action cannot digest: both refuse alike
+    return pa[0] == pb[0]
+
+
 def conditions(prop, tier):
     q = tier == 'quick'
     t = 280 if q else 1700
     out = []
+    out.append(dict(name='C17.override-actions', fn='override_action', fixed={}, timeout=t,
+                    extra_pre=['c3 == 0 and c4 == 0'],
+                    bounds='every relaxed p_* function vs the base function of the same rule, on every alternative both have (%d), children picked by '
+                           'symbolic index from %d sub-tree values incl. the falsy ones (0, "", [], None): same result' % (len(OVERRIDES), len(CHILD_POOL))))
     larger = [0, 1, LARGER.index('lowcaseIdentifier'), LARGER.index('curlyBracesAroundEnterpriseInTrap')] if q else range(len(LARGER))
     for bi in larger:
         if not buildable(LARGER[bi]):
@@ -269,7 +354,8 @@ def conditions(prop, tier):
 
 
 def selftests(prop):
-    return [('differential', dict(bi=1, fam=0, x=3, y=3, z=1, a=5, b=-6)),
+    return [('override_action', dict(oi=7, c1=0, c2=0, c3=0, c4=0)),
+            ('differential', dict(bi=1, fam=0, x=3, y=3, z=1, a=5, b=-6)),
             ('differential', dict(bi=5, fam=4, x=1, y=0, z=0, a=0, b=0)),
             ('v1_differential', dict(fam=0, nvars=2, x=0, number=7)), ('v1_differential', dict(fam=1, nvars=1, x=0, number=7)),
             ('breakage', dict(bk=0, n=2, which=1)), ('breakage', dict(bk=2, n=3, which=1)), ('breakage', dict(bk=6, n=2, which=0)),
